@@ -29,6 +29,7 @@ type Mutant struct {
 
 var Mutants = map[string][]Mutant{
 	"C01": {
+		{"upper-neighbour check overwrites the re-sort flag", "path_intersection.go", `has = has \|\| addIntersections\(zs, queue, centre, square\.Upper, next\)`, "has = addIntersections(zs, queue, centre, square.Upper, next)", "E11.sticky-flag"},
 		{"clipping contour registered unclosed", "path_intersection.go", `qSeg = queue\.AddPathEndpoints\(q, qSeg, true\)`, "qSeg = queue.AddPathEndpoints(qs[i], qSeg, true)", "E9.clip-closed"},
 		{"absorbed segment keeps the other path's windings (same path)", "path_intersection.go", `\t\t\ts\.selfWindings \+= prev\.selfWindings\n\t\t\ts\.otherSelfWindings \+= prev\.otherSelfWindings\n`, "\t\t\ts.selfWindings += prev.selfWindings\n", "E9.absorb-conserves"},
 		{"absorbed segment handed over straight across paths", "path_intersection.go", `\t\t\ts\.selfWindings \+= prev\.otherSelfWindings\n\t\t\ts\.otherSelfWindings \+= prev\.selfWindings\n`, "\t\t\ts.selfWindings += prev.selfWindings\n\t\t\ts.otherSelfWindings += prev.otherSelfWindings\n", "E9.absorb-conserves"},
@@ -142,6 +143,7 @@ var Mutants = map[string][]Mutant{
 		{"quad case reads offset 5", "path.go", `\t\tcase QuadToCmd:\n\t\t\tcp := Point\{p\.d\[i\+1\], p\.d\[i\+2\]\}\n\t\t\tend = Point\{p\.d\[i\+3\], p\.d\[i\+4\]\}\n\t\t\txmin = math\.Min\(xmin, math\.Min\(cp\.X, end\.X\)\)`, "\t\tcase QuadToCmd:\n\t\t\tcp := Point{p.d[i+1], p.d[i+2]}\n\t\t\tend = Point{p.d[i+5], p.d[i+6]}\n\t\t\txmin = math.Min(xmin, math.Min(cp.X, end.X))", "E2.layout"},
 	},
 	"C10": {
+		{"large-arc flag from the signed angle difference", "path.go", `(?s)dtheta := math\.Abs\(theta1 - theta0\)\n\n\tsweep := theta0 < theta1\n\tlarge := math\.Mod\(dtheta, 2\.0\*math\.Pi\) > math\.Pi\n`, "dtheta := theta1 - theta0\n\n\tsweep := theta0 < theta1\n\tlarge := math.Mod(dtheta, 2.0*math.Pi) > math.Pi\n\tdtheta = math.Abs(dtheta)\n", "E11.arc-span-magnitude"},
 		{"radii check rotates the chord by +phi", "path_util.go", `(?s)(func ellipseRadiiCorrection\(.*?)\tx1p := \(cosphi\*diff\.X \+ sinphi\*diff\.Y\) / 2\.0\n\ty1p := \(-sinphi\*diff\.X \+ cosphi\*diff\.Y\) / 2\.0\n`, "${1}\tx1p := (cosphi*diff.X - sinphi*diff.Y) / 2.0\n\ty1p := (sinphi*diff.X + cosphi*diff.Y) / 2.0\n", "E3.ellipse-frame"},
 		{"CopyTo dereferences the nil path it tests for", "path.go", `\tif q == nil \{\n\t\tq = &Path\{\}\n\t\}\n\tif len\(q\.d\) < len\(p\.d\) \{`, "\tif q == nil || len(q.d) < len(p.d) {", "E4.nil-branch-deref"},
 		{"Append adopts its first non-empty argument", "path.go", `\t\tif !q\.Empty\(\) \{\n\t\t\tp\.d = append\(p\.d, q\.d\.\.\.\)\n\t\t\}\n`, "\t\tif q.Empty() {\n\t\t\tcontinue\n\t\t} else if len(p.d) == 0 {\n\t\t\tp = q\n\t\t\tcontinue\n\t\t}\n\t\tp.d = append(p.d, q.d...)\n", "E1.no-mutation"},
@@ -168,6 +170,7 @@ var Mutants = map[string][]Mutant{
 		{"number table larger than the buffer", "path.go", `\t\t'A': 7,\n`, "\t\t'A': 8,\n", "E4.table-bound"},
 	},
 	"C12": {
+		{"PostScript writer transforms the caller's path in place", "renderers/ps/ps.go", `r\.w\.Write\(\[\]byte\(path\.Copy\(\)\.Transform\(m\)\.ToPS\(\)\)\)`, "r.w.Write([]byte(path.Transform(m).ToPS()))", "E1.render-path-pure"},
 		{"SVG stroke outline takes the path's fill rule", "renderers/svg/svg.go", `\t\t// the outline of a stroke overlaps itself, it is always filled non-zero \(the default\)\n`, "\t\tif style.FillRule == canvas.EvenOdd {\n\t\t\tfmt.Fprintf(r.w, `\" fill-rule=\"evenodd`)\n\t\t}\n", "E6.outline-nonzero"},
 		{"PDF stroke outline filled even-odd", "renderers/pdf/pdf.go", `(?s)(r\.w\.Write\(\[\]byte\(path\.Transform\(m\)\.ToPDF\(\)\)\)\n\t\t)r\.w\.Write\(\[\]byte\(" f"\)\)`, "${1}r.w.Write([]byte(\" f*\"))", "E6.outline-nonzero"},
 		{"trailing constant piece of a gradient without its bound", "renderers/pdf/writer.go", `\t\tbounds = append\(bounds, stops\[len\(stops\)-1\]\.Offset\)\n`, "", "E5.stitching-arity"},
@@ -190,6 +193,7 @@ var Mutants = map[string][]Mutant{
 		{"PS eofill outside its guard", "renderers/ps/ps.go", `r\.w\.Write\(\[\]byte\(" fill"\)\)\n\t\t\}\n\t\tif style\.HasStroke\(\) && !strokeUnsupported \{\n\t\t\tr\.w\.Write\(\[\]byte\(" grestore"\)\)`, "r.w.Write([]byte(\" eofill\"))\n\t\t}\n\t\tif style.HasStroke() && !strokeUnsupported {\n\t\t\tr.w.Write([]byte(\" grestore\"))", "E6.enum"},
 	},
 	"C13": {
+		{"metadata written raw up to Latin-1", "renderers/pdf/writer.go", `if 0x80 <= r \{\n\t\t\t\tascii = false`, "if 0xFF < r {\n\t\t\t\tascii = false", "E5.text-string-encoding"},
 		{"negative dash phase made positive by a possibly zero step", "renderers/pdf/writer.go", `\t\tif 0\.0 < totalLength \{\n\t\t\tfor dashPhase < 0\.0 \{\n\t\t\t\tdashPhase \+= totalLength\n\t\t\t\}\n\t\t\} else \{\n[^\n]*\n\t\t\}\n`, "\t\tfor dashPhase < 0.0 {\n\t\t\tdashPhase += totalLength\n\t\t}\n", "E4.additive-loop"},
 		{"DCT images always declared DeviceRGB", "renderers/pdf/writer.go", `\t\tif _, ok := img\.\(\*image\.Gray\); ok \{\n\t\t\tcolorSpace = pdfName\("DeviceGray"\)[^\n]*\n\t\t\}\n`, "", "E5.jpeg-colorspace"},
 		{"parentheses escaped only when their counts differ", "renderers/pdf/writer.go", "(\\t\\tv = strings\\.Replace\\(v, `\\(`, [^\\n]*\\n\\t\\tv = strings\\.Replace\\(v, `\\)`, [^\\n]*\\n)", "\t\tif strings.Count(v, \"(\") != strings.Count(v, \")\") {\n${1}\t\t}\n", "E5.string-escape"},
@@ -211,6 +215,7 @@ var Mutants = map[string][]Mutant{
 		{"stroke keeps even-odd star", "renderers/pdf/pdf.go", `\t\t\tif closed \{\n\t\t\t\tr\.w\.Write\(\[\]byte\(" s"\)\)\n\t\t\t\} else \{\n\t\t\t\tr\.w\.Write\(\[\]byte\(" S"\)\)\n\t\t\t\}\n\t\t\} else if style\.HasFill\(\) && style\.HasStroke\(\) \{`, "\t\t\tif closed {\n\t\t\t\tr.w.Write([]byte(\" s\"))\n\t\t\t} else {\n\t\t\t\tr.w.Write([]byte(\" S\"))\n\t\t\t}\n\t\t\tif style.FillRule == canvas.EvenOdd {\n\t\t\t\tr.w.Write([]byte(\"*\"))\n\t\t\t}\n\t\t} else if style.HasFill() && style.HasStroke() {", "E5.grammar"},
 	},
 	"C14": {
+		{"hatch tile scanned with the path's fill rule", "renderers/rasterizer/rasterizer.go", `\t\t\t\tr\.scanner\.SetWinding\(true\) // the tile is the outline[^\n]*\n`, "", "E6.winding-mode"},
 		{"early-out on bounds that a dashed stroke's outline replaced", "renderers/rasterizer/rasterizer.go", `(?s)\t\tif style\.HasFill\(\) \{\n\t\t\tbounds = bounds\.Add\(stroke\.FastBounds\(\)\)\n\t\t\} else \{\n\t\t\tbounds = stroke\.FastBounds\(\)\n\t\t\}\n(.*?)(\tif style\.HasFill\(\) \{\n\t\tr\.scanner\.SetWinding)`, "\t\tbounds = stroke.FastBounds()\n${1}\tif bounds.X1*dpmm <= 0.0 || float64(size.X) <= bounds.X0*dpmm {\n\t\treturn\n\t}\n${2}", "E6.skip-bounds-cover"},
 		{"rasterizer transforms the path before stroking it", "renderers/rasterizer/rasterizer.go", `\t\tstroke = path\n\t\tif 0 < len\(style\.Dashes\) \{`, "\t\tstroke = path.Copy().Transform(m)\n\t\tif 0 < len(style.Dashes) {", "E11.stroke-before-view"},
 		{"scanner remembers the next sub-path's start before closing the previous one", "path.go", `(?s)\tvar first Point\n(\topen := false\n.*?)\t\t\tif cmd == MoveToCmd && open \{\n[^\n]*\n\t\t\t\tras\.Line\(fixedPoint26_6\(first\.X\*dpmm, dy-first\.Y\*dpmm\)\)\n\t\t\t\}\n(.*?)\t\t\tfirst = Point\{p\.d\[i\+1\], p\.d\[i\+2\]\}\n\t\t\tras\.Start\(fixedPoint26_6\(p\.d\[i\+1\]\*dpmm, dy-p\.d\[i\+2\]\*dpmm\)\)\n(.*?)\t\tras\.Line\(fixedPoint26_6\(first\.X\*dpmm, dy-first\.Y\*dpmm\)\)\n`, "\tvar first fixed.Point26_6\n${1}\t\t\tif cmd == MoveToCmd {\n\t\t\t\tfirst = fixedPoint26_6(p.d[i+1]*dpmm, dy-p.d[i+2]*dpmm)\n\t\t\t\tif open {\n\t\t\t\t\tras.Line(first)\n\t\t\t\t}\n\t\t\t}\n${2}\t\t\tras.Start(first)\n${3}\t\tras.Line(first)\n", "E6.implicit-close"},
@@ -274,6 +279,7 @@ var Mutants = map[string][]Mutant{
 		{"Linebreak looks at items[b+1] unguarded", "text/linebreak.go", `\(len\(lb\.items\) <= b\+1 \|\| lb\.items\[b\+1\]\.Type != PenaltyType\)`, `lb.items[b+1].Type != PenaltyType`, "E4.neighbour-guard"},
 	},
 	"C18": {
+		{"default width taken from the most common glyph", "renderers/pdf/writer.go", `\tDW := widths\[0\]\n`, "\tDW, counts := widths[0], map[int]int{}\n\tfor _, width := range widths[1:len(glyphIDs)] {\n\t\tcounts[width]++\n\t\tif counts[DW] < counts[width] {\n\t\t\tDW = width\n\t\t}\n\t}\n", "E5.default-width"},
 		{"ToUnicode run continues across skipped glyphs", "renderers/pdf/writer.go", `(?s)if 0x010000 <= unicode && unicode <= 0x10FFFF \{(.*?)if uint16\(subsetGlyphID\+1\) == startGlyphID\+length && unicode == startUnicode\+uint32\(length\) \{`, "if unicode == 0 {\n\t\t\tcontinue\n\t\t} else if 0x010000 <= unicode && unicode <= 0x10FFFF {${1}if unicode == startUnicode+uint32(length) {", "E11.run-covers-codes"},
 		{"vertical TJ adjustment against the horizontal advance", "renderers/pdf/writer.go", `origYAdvance := -int32\(w\.font\.SFNT\.GlyphVerticalAdvance\(glyph\.ID\)\)`, "origYAdvance := -int32(w.font.SFNT.GlyphAdvance(glyph.ID))", "E11.advance-axis"},
 		{"text matrix shear entry not compared", "renderers/pdf/writer.go", ` && canvas\.Equal\(m\[0\]\[1\], w\.textPosition\[0\]\[1\]\)`, "", "E5.text-matrix"},
@@ -286,6 +292,7 @@ var Mutants = map[string][]Mutant{
 		{"vertical fonts written as horizontal", "renderers/pdf/writer.go", `w\.writeFonts\(w\.fontsV, true\)`, `w.writeFonts(w.fontsV, false)`, "E5.fontmaps"},
 	},
 	"C19": {
+		{"explicit miter join installs the predefined joiner", "svg.go", `svg\.ctx\.SetStrokeJoiner\(MiterJoiner\{BevelJoin, svg\.state\.strokeMiterLimit\}\)`, "svg.ctx.SetStrokeJoiner(MiterJoin)", "E11.svg-miterlimit-carried"},
 		{"importer without the hash-token branch", "svg.go", `(?s)\} else if t\.TokenType == css\.HashToken \{.*?\n\t\t\t\t\} else if`, "} else if", "E11.selector-hash"},
 		{"id selector keeps the leading #", "svg.go", `attr: "id", val: string\(t\.Data\[1:\]\)`, `attr: "id", val: string(t.Data)`, "E11.selector-hash"},
 		{"class selector looks at the first word only", "svg.go", `(?s)\t\tfor _, val := range vals \{\n\t\t\tif val != "" && val == sel\.val \{\n\t\t\t\treturn true\n\t\t\t\}\n\t\t\}\n\t\treturn false\n`, "\t\treturn len(vals) > 0 && vals[0] == sel.val\n", "E11.word-list-match"},
@@ -308,6 +315,7 @@ var Mutants = map[string][]Mutant{
 		{"explicit width used as millimetres", "svg.go", `width = svg\.parseDimension\(attrWidth, 1\.0\) \* 25\.4 / 96\.0`, `width = svg.parseDimension(attrWidth, 1.0)`, "E11.svg-size"},
 	},
 	"C20": {
+		{"hyphen width memoised per font without the size", "text/linebreak.go", `(?s)(\t"math"\n)(.*?)(// GlyphsToItems converts a slice of glyphs.*?)(\t\t\t\thyphenWidth \*= glyph\.Size / float64\(glyph\.SFNT\.Head\.UnitsPerEm\)\n)`, "${1}\t\"sync\"\n${2}var hyphenWidths sync.Map\n\n${3}${4}\t\t\t\thyphenWidths.Store(glyph.SFNT, hyphenWidth)\n", "E7.memo-key"},
 		{"image pixel buffers recycled without zeroing", "renderers/pdf/writer.go", `(?s)(\t"strings"\n)(.*?)(func \(w \*pdfPageWriter\) embedImage\(.*?)stream = make\(\[\]byte, size\.X\*size\.Y\*3\)`, "${1}\t\"sync\"\n${2}var imageBufPool sync.Pool\n\nfunc getImageBuf(n int) []byte {\n\tif buf, ok := imageBufPool.Get().(*[]byte); ok && n <= cap(*buf) {\n\t\treturn (*buf)[:n]\n\t}\n\treturn make([]byte, n)\n}\n\n${3}stream = getImageBuf(size.X * size.Y * 3)\n\t\tdefer func() { imageBufPool.Put(\u0026stream) }()", "E7.pool-reinit"},
 		{"nil-options PDF renderer keeps the address of DefaultOptions", "renderers/pdf/pdf.go", `\t\tdefaultOptions := DefaultOptions\n\t\topts = &defaultOptions\n`, "\t\topts = &DefaultOptions\n", "E7.global-escape"},
 		{"sweep points released with their square", "path_intersection.go", `\t\tfor _, event := range square\.Events \{\n\t\t\tif !event\.left \{\n\t\t\t\tboPointPool\.Put\(event\.other\)\n\t\t\t\tboPointPool\.Put\(event\)\n\t\t\t\}\n\t\t\}\n\t\tboSquarePool\.Put\(square\)`, "\t\tfor _, event := range square.Events {\n\t\t\tboPointPool.Put(event)\n\t\t}\n\t\tboSquarePool.Put(square)", "E7.point-release"},
